@@ -262,6 +262,20 @@ def degenerate(store, rop):
         return has_rxn(b) and a.X + sgn * b.X == 0
     return False
 
+def reduce_degenerate(pr):
+    """reduce() folds the members that share a reactant with `+=`; a partial sum of conversions that cancels exactly is the
+    same 0/0 case as `degenerate` above (ZeroDivisionError or a rounding-dependent stoichiometry): left out on both sides."""
+    groups = {}
+    for it in pr:
+        groups.setdefault(it._reactant_index, []).append(it)
+    for members in groups.values():
+        acc = float(members[0].X)
+        for it in members[1:]:
+            if has_rxn(it):
+                if acc + float(it.X) == 0: return True
+                acc += float(it.X)
+    return False
+
 def has_rxn(r):
     """has_reaction as the property means it (independent of the implementation's own predicate)"""
     return float(r.X) != 0 and any(x != 0 for x in np.asarray(r._stoichiometry.to_array(), float).reshape(-1))
@@ -275,8 +289,12 @@ def run_impl(case):
     out = {'init': [snap(r) for r in objs]}
     if case['kind'] == 'set':
         pr, handles, hdesc = set_handles(e['tmo'], objs)
-        oks = []
+        oks, used = [], []
         for op in case['ops']:
+            if op[0] == 'reduce' and reduce_degenerate(pr):
+                out.setdefault('skipped', []).append(['reduce'])
+                continue
+            used.append(op)
             try:
                 set_apply(pr, handles, op)
                 oks.append(True)
@@ -284,6 +302,7 @@ def run_impl(case):
                 oks.append(False)
                 out.setdefault('errors', []).append(type(ex).__name__)
         out['oks'] = oks
+        out['set_ops'] = used
         out['handles'] = hdesc
         out['reads'] = [[fr_json(frac(x)) for x in np.atleast_1d(h.X)] for h in handles]
         out['fresh_items'] = [fr_json(frac(it.X)) for it in pr]
@@ -347,7 +366,7 @@ def coq_case(case, out):
         def vec_of(v, n):
             return qlist([v] if not isinstance(v, list) else v)
         sops = []
-        for op in case['ops']:
+        for op in out.get('set_ops', case['ops']):
             nm = op[0]
             if nm == 'item_set': sops.append(f'(SItemSet {cnat(op[1])} {q(op[2])})')
             elif nm == 'set_elem': sops.append(f'(SSetElem {cnat(op[1])} {q(op[2])})')
